@@ -207,7 +207,7 @@ def _hillclimb_small_scope(tier, seed):
                     "GreedyAllocator.allocate_live_ranges: live => disjoint / aligned / reported total",
                label="bounded",
                bound="all multisets of 2 and 3 live ranges with start <= end in 0..%d, size in %r, alignment 16 (+ one mixed-alignment family), "
-                     "max_iterations in (None, 0, 3), native evaluation of the real code" % (T, sizes),
+                     "max_iterations in (None, 0, 3), memory limit unreachable / unlimited, native evaluation of the real code" % (T, sizes),
                cases=0, violations=[], known_lines=[])
     bad = []
 
@@ -219,9 +219,12 @@ def _hillclimb_small_scope(tier, seed):
             lrs.append(lr)
         return lrs
 
-    def check(spec, max_it, align=16):
+    def check(spec, max_it, align=16, memory_limit=1 << 40):
+        import contextlib
+        import io
         lrs = mk(spec, align)
-        a = hc.HillClimbAllocator(lrs, max_it, 1 << 40)
+        with contextlib.redirect_stdout(io.StringIO()):      # an unreachable memory limit prints a warning
+            a = hc.HillClimbAllocator(lrs, max_it, memory_limit)
         for i, x in enumerate(a.lrs):
             want = {j for j, y in enumerate(a.lrs) if j != i and x.start_time <= y.end_time and y.start_time <= x.end_time}
             got = {y.id for y in x.neighbours}
@@ -246,6 +249,11 @@ def _hillclimb_small_scope(tier, seed):
                 msg = check(spec, max_it)
                 if msg and len(bad) < 5:
                     bad.append("HillClimbAllocator(%r, max_iterations=%r): %s" % (list(spec), max_it, msg))
+                # the same instance with a memory limit the allocator cannot meet (the result must still be a complete, valid allocation)
+                out["cases"] += 1
+                msg = check(spec, max_it, memory_limit=sizes[0])
+                if msg and len(bad) < 5:
+                    bad.append("HillClimbAllocator(%r, max_iterations=%r, memory_limit=%d): %s" % (list(spec), max_it, sizes[0], msg))
     for spec in itertools.combinations_with_replacement([(s, e, 24) for (s, e) in intervals], 3):
         out["cases"] += 1
         msg = check(spec, None, align=32)
